@@ -1,6 +1,8 @@
 package types
 
 import (
+	"fmt"
+
 	"cosmossdk.io/math"
 	sdk "github.com/cosmos/cosmos-sdk/types"
 )
@@ -14,6 +16,11 @@ const (
 	// MaxExtendedRound is the maximum extend rounds for a batch auction to have
 	// It prevents from a batch auction to extend its rounds forever
 	MaxExtendedRound = 30
+
+	// MaxExtendedPeriod is the maximum extended period in days (ten years)
+	// It keeps every extended end time representable: an end time pushed beyond the year 9999
+	// cannot be stored, which would make every block fail once an auction has to be extended
+	MaxExtendedPeriod = 3650
 )
 
 var (
@@ -59,6 +66,9 @@ func validatePlaceBidFee(v sdk.Coins) error {
 	return v.Validate()
 }
 
-func validateExtendedPeriod(uint32) error {
+func validateExtendedPeriod(v uint32) error {
+	if v > MaxExtendedPeriod {
+		return fmt.Errorf("extended period %d exceeds the maximum of %d days", v, MaxExtendedPeriod)
+	}
 	return nil
 }
